@@ -155,7 +155,7 @@ Proof.
   intros. unfold derived_np_tinit_branch, derived_nb_tinit_branch, derived_np_height_difference, derived_nb_height_difference, derived_np_p_init_i_abs, derived_nb_p_init_i_abs, derived_np_p_init_i1_abs, derived_nb_p_init_i1_abs. cbv zeta. repeat split; reflexivity.
 Qed.
 
-(* reported absolute pressures: p_abs_from/to always; p_abs_mean (2/3 (a^3-b^3)/(a^2-b^2) vs 2(a^3-b^3)/(3(a^2-b^2)), same isclose test) when p_from_abs + p_to_abs <> 0 *)
+(* reported absolute pressures: p_abs_from/to always; p_abs_mean (symmetric form 2/3 (a^2+ab+b^2)/(a+b) vs 2(a^2+ab+b^2)/(3(a+b)), no mask since /repo c6a5196) when p_from_abs + p_to_abs <> 0 *)
 Lemma twin_gas_pressures_equal :
   forall (bp_FROM_NODE_T_SWITCHED bp_TOUTINIT : R) (fl_compressibility : R -> R -> R) (np_from_PAMB np_from_TINIT np_to_PAMB np_to_TINIT p_from p_to v_mps : R),
   gasres_np_p_abs_from bp_FROM_NODE_T_SWITCHED bp_TOUTINIT fl_compressibility np_from_PAMB np_from_TINIT np_to_PAMB np_to_TINIT p_from p_to v_mps = gaspress_nb_p_abs_from np_from_PAMB np_to_PAMB p_from p_to /\
@@ -165,13 +165,22 @@ Lemma twin_gas_pressures_equal :
 Proof.
   intros. unfold gasres_np_p_abs_from, gaspress_nb_p_abs_from, gasres_np_p_abs_to, gaspress_nb_p_abs_to,
     gasres_np_p_abs_mean, gaspress_nb_p_abs_mean. cbv zeta. repeat split; try reflexivity.
-  intros Hs. set (a := np_from_PAMB + p_from) in *. set (b := np_to_PAMB + p_to) in *.
-  destruct (Rleb_spec (Rabs (a - b)) (1 / 100000000 + 1 / 100000 * Rabs b)) as [Hle | Hgt]; simpl; [reflexivity |].
-  assert (Hab : a - b <> 0).
-  { intro H0. rewrite H0, Rabs_R0 in Hgt. pose proof (Rabs_pos b). lra. }
-  assert (Hd : a ^ 2 - b ^ 2 <> 0).
-  { replace (a ^ 2 - b ^ 2) with ((a - b) * (a + b)) by ring. apply Rmult_integral_contrapositive_currified; assumption. }
-  field. intro H0. apply Hd. rewrite <- H0. ring.
+  intros Hs. field. exact Hs.
+Qed.
+
+(* the reported mean pressure (symmetric form, both engines) is the mean of the quadratic pressure profile in EVERY case: for
+   a <> b it equals 2/3 (a^3 - b^3)/(a^2 - b^2), at a = b it equals a *)
+Lemma pm_symmetric_form :
+  forall (bp_FROM_NODE_T_SWITCHED bp_TOUTINIT : R) (fl_compressibility : R -> R -> R) (np_from_PAMB np_from_TINIT np_to_PAMB np_to_TINIT p_from p_to v_mps : R),
+  let a := np_from_PAMB + p_from in let b := np_to_PAMB + p_to in
+  a + b <> 0 ->
+  (a <> b -> gasres_np_p_abs_mean bp_FROM_NODE_T_SWITCHED bp_TOUTINIT fl_compressibility np_from_PAMB np_from_TINIT np_to_PAMB np_to_TINIT p_from p_to v_mps = 2 / 3 * (a ^ 3 - b ^ 3) / (a ^ 2 - b ^ 2)) /\
+  (a = b -> gasres_np_p_abs_mean bp_FROM_NODE_T_SWITCHED bp_TOUTINIT fl_compressibility np_from_PAMB np_from_TINIT np_to_PAMB np_to_TINIT p_from p_to v_mps = a).
+Proof.
+  intros until v_mps. intros a b Hs. unfold gasres_np_p_abs_mean. cbv zeta. fold a b. split.
+  - intros Hne. assert (a - b <> 0) by lra. field. split; [| exact Hs].
+    replace (a * a - b * b) with ((a - b) * (a + b)) by ring. apply Rmult_integral_contrapositive_currified; assumption.
+  - intros E. rewrite <- E in *. field. lra.
 Qed.
 
 (* norm factors and gas velocities: the numba wrapper (pressures -> compressibility at the direction-corrected inlet temperature tf -> get_gas_vel_numba) equals the numpy function, direction-switched branches included (since /repo bfae2a5 the wrapper passes tf to get_gas_vel_numba) *)
